@@ -47,6 +47,7 @@ def ev_name(e):
     return 'e%d' % e
 
 
+NACT = 'sum(map(active, NAMES))'     # what active() says about every state of the chart, at this point of the step
 _DUAL = {}      # set by build(): which elements of the chart being realised share one source text
 
 
@@ -77,13 +78,14 @@ def dual_of(c):
 def code_of(kind, ident, d):
     """Python source of a code fragment with descriptor d."""
     if kind == 'a' and _DUAL.get('g', (0, 0))[1] == ident:
-        return 'dg(%d, %d, x, time, event)' % _DUAL['g']
+        return 'dg(%d, %d, x, time, event, %s)' % (_DUAL['g'] + (NACT if ident % 2 == 0 else '-1',))
     if kind == 'e' and _DUAL.get('c', (0, 0))[1] == ident:
-        return 'dc(%d, 1, %d, x, time)' % _DUAL['c']
+        return 'dc(%d, 1, %d, x, time, %s)' % (_DUAL['c'] + (NACT if ident % 2 == 0 else '-1',))
+    nact = NACT if ident % 2 == 0 else '-1'      # only every other fragment looks at active()
     if kind == 'a':
-        lines = ["p('a', %d, x, time, event)" % ident]
+        lines = ["p('a', %d, x, time, event, %s)" % (ident, nact)]
     else:
-        lines = ["p('%s', %d, x, time)" % (kind, ident)]
+        lines = ["p('%s', %d, x, time, None, %s)" % (kind, ident, nact)]
     if d['incx']:
         lines.append('x = x + %d' % d['incx'])
         lines.append('box[0].append(x)')
@@ -111,7 +113,7 @@ def guard_of(tid, t, names):
         return None
     if gk == 'oracle':
         if _DUAL.get('g', (0, 0))[0] == tid:
-            return 'dg(%d, %d, x, time, event)' % _DUAL['g']
+            return 'dg(%d, %d, x, time, event, %s)' % (_DUAL['g'] + (NACT if _DUAL['g'][1] % 2 == 0 else '-1',))
         return 'g(%d, event, time)' % tid
     if gk == 'after':
         return 'g(%d, event, time, after(%d))' % (tid, t['ga'])
@@ -126,11 +128,11 @@ def guard_of(tid, t, names):
 
 def cond_code(ck, owner, idx):
     if ck == 1 and idx == 1 and _DUAL.get('c', (0, 0))[0] == owner:
-        return 'dc(%d, 1, %d, x, time)' % _DUAL['c']
+        return 'dc(%d, 1, %d, x, time, %s)' % (_DUAL['c'] + (NACT if _DUAL['c'][1] % 2 == 0 else '-1',))
     if ck == 1:
         return 'c(1, %d, %d, time)' % (owner, idx)
     gen = ' and all(v >= 0 for v in lst)' if (owner + idx) % 3 == 0 else ''     # a nested scope inside a condition
-    return 'c(%d, %d, %d, time, __old__, len(box[0]), after(1), idle(1))%s' % (ck, owner, idx, gen)
+    return 'c(%d, %d, %d, time, __old__, len(box[0]), after(1), idle(1), active(NAMES[0]))%s' % (ck, owner, idx, gen)
 
 
 def contract_lists(owner, npre, npost, ninv):
